@@ -10,6 +10,7 @@ from vlib import evlog, fitsgen, instr_mp, models, ref_study, sched, tilegen
 
 PROPERTY = "C09"
 LEVEL = "exploration"
+OPTIMIZED_SAMPLE = (4, 40)  # cases repeated under python -O (quick, thorough)
 JOBS = 12
 CASE_TIMEOUT = 400
 RULE = (
